@@ -583,6 +583,7 @@ func c37Exec(c *Case) {
 	if len(c.Lines) == 0 {
 		return
 	}
+	famResetShared()
 	h := strings.Fields(c.Lines[0])
 	limit, cfg := 2, "plain"
 	if len(h) == 3 && h[0] == "hist" {
